@@ -83,6 +83,7 @@ class Scenario:
         self.extras_native = extras_native  # (rng) -> dict of helper objects for native runs
         self.extra_hyps = extra_hyps  # (v) -> list of sympy hypotheses
         self.special_native = special_native  # (rng) -> list of native input dicts tried first by every bounded search (boundary designs)
+        self.post_native = None  # (rng, v) -> v: lets a scenario derive some native inputs from others (e.g. run a real earlier stage)
 
     def _symbol(self, name):
         kw = {"real": True}
@@ -181,6 +182,8 @@ class Scenario:
             v[name] = x
         if self.extras_native:
             v.update(self.extras_native(rng))
+        if self.post_native is not None:
+            v = self.post_native(rng, v)
         return v
 
     def pre_ok_native(self, v):
